@@ -36,6 +36,8 @@ pub enum Req {
 #[derive(Clone, Debug, PartialEq, Eq, Hash, Serialize, Deserialize)]
 pub enum Lit {
     Int(i64),
+    /// an integer written in hexadecimal in the IDL text (`-0x10`)
+    Hex(i64),
     Double(String),
     Bool(bool),
     Str(String),
@@ -293,6 +295,32 @@ pub fn canon(v: &TVal) -> TVal {
     }
 }
 
+/// The escapes a Thrift string literal and a Rust string literal agree on.
+pub fn unescape_idl(s: &str) -> String {
+    let mut out = String::new();
+    let mut it = s.chars();
+    while let Some(c) = it.next() {
+        if c != '\\' {
+            out.push(c);
+            continue;
+        }
+        match it.next() {
+            Some('n') => out.push('\n'),
+            Some('t') => out.push('\t'),
+            Some('r') => out.push('\r'),
+            Some('\\') => out.push('\\'),
+            Some('"') => out.push('"'),
+            Some('\'') => out.push('\''),
+            Some(o) => {
+                out.push('\\');
+                out.push(o)
+            }
+            None => out.push('\\'),
+        }
+    }
+    out
+}
+
 #[derive(Debug, Clone, PartialEq)]
 pub enum Expect {
     Value(TVal),
@@ -303,6 +331,9 @@ pub enum Expect {
 impl SDoc {
     /// Value of a default literal at type `ty`.
     pub fn eval_lit(&self, ty: &STy, lit: &Lit) -> TVal {
+        if let Lit::Hex(i) = lit {
+            return self.eval_lit(ty, &Lit::Int(*i));
+        }
         match (self.resolve(ty), lit) {
             (_, Lit::Const(f, n)) => match self.decl(*f, n).map(|d| &d.kind) {
                 Some(DeclKind::Const(cty, l)) => {
@@ -333,7 +364,7 @@ impl SDoc {
                 (STy::I64, Lit::Int(i)) => TVal::I64(*i),
                 (STy::Double, Lit::Int(i)) => TVal::Double((*i as f64).to_bits()),
                 (STy::Double, Lit::Double(s)) => TVal::Double(s.parse::<f64>().expect("double literal").to_bits()),
-                (STy::String, Lit::Str(s)) | (STy::Binary, Lit::Str(s)) => TVal::Binary(s.clone().into_bytes()),
+                (STy::String, Lit::Str(s)) | (STy::Binary, Lit::Str(s)) => TVal::Binary(unescape_idl(s).into_bytes()),
                 (STy::List(e), Lit::List(ls)) => TVal::List(self.wire_tt(e), ls.iter().map(|l| self.eval_lit(e, l)).collect()),
                 (STy::Set(e), Lit::List(ls)) => TVal::Set(self.wire_tt(e), ls.iter().map(|l| self.eval_lit(e, l)).collect()),
                 (STy::Map(k, v), Lit::Map(ls)) => TVal::Map(self.wire_tt(k), self.wire_tt(v), ls.iter().map(|(a, b)| (self.eval_lit(k, a), self.eval_lit(v, b))).collect()),
@@ -703,6 +734,7 @@ fn ty_syn(doc: &SDoc, from_file: usize, t: &STy, annots: &[(String, String)]) ->
 fn lit_syn(doc: &SDoc, from_file: usize, l: &Lit) -> tsyn::CV {
     match l {
         Lit::Int(i) => tsyn::CV::Int(*i),
+        Lit::Hex(i) => tsyn::CV::HexInt(*i),
         Lit::Double(s) => tsyn::CV::Double(s.clone()),
         Lit::Bool(b) => tsyn::CV::Bool(*b),
         Lit::Str(s) => tsyn::CV::Str(s.clone()),
